@@ -41,6 +41,38 @@ def load_known() -> dict[str, str]:
     return known
 
 
+# Interpreter / environment profiles: part of every check's workload is repeated in interpreters that are configured
+# differently from the default one - the properties speak about every execution, and what the library does must not depend
+# on whether assert statements are compiled in, whether warnings are errors, where the process was started or whether byte
+# code is written.  (The hash seed is C15's own subject and handled there; a non-UTF-8 locale by envprobe.py.)
+PROFILES = {
+    "optimized": {"flags": ["-O"], "what": "python -O: assert statements and __debug__ blocks are compiled away"},
+    "warnings-are-errors": {"flags": [], "what": "every warning attributed to a pytestarch module is an exception"},
+    "dev-mode-elsewhere": {"flags": ["-X", "dev", "-B"], "cwd": "scratch", "what": "python -X dev -B started in an empty directory"},
+}
+
+
+def profile_variants(specs: list, tier: str, mod=None) -> list:
+    """Copies of two shards per profile: the last of the property's own shards that has a size ('n') and the first
+    end-to-end / composed-scan shard, at half size.  A property module may name profiles under which ALL of its shards are
+    repeated (ALL_SHARDS_UNDER_PROFILES: the cheap, exhaustive call-sequence sweeps of C13 and C16 under python -O)."""
+    own = [s for s in specs if s.get("kind") not in ("e2e", "combos") and isinstance(s.get("n"), int)]
+    extra = [s for s in specs if s.get("kind") in ("e2e", "combos")]
+    picked = own[-1:] + extra[:1]
+    if not picked:
+        picked = specs[-1:]
+    out = []
+    for name in PROFILES:
+        for s in (specs if name in getattr(mod, "ALL_SHARDS_UNDER_PROFILES", ()) else picked):
+            c = dict(s)
+            if isinstance(c.get("n"), int):
+                c["n"] = max(1, c["n"] // 2)
+            c["_profile"] = name
+            c.pop("seed", None)
+            out.append(c)
+    return out
+
+
 def prop_module(pid: str):
     return importlib.import_module(f"pta_verif.props.{pid.lower()}")
 
@@ -56,6 +88,14 @@ def run_shard_inprocess(pid: str, spec: dict) -> Acc:
     hub.scan_crash_owner = pid if pid in ("C02", "C04", "C08", "C09", "C10", "C14", "C15") else "C04"
     from .budget import ShardAbort
 
+    profile = spec.get("_profile")
+    if profile == "warnings-are-errors":
+        import warnings
+
+        warnings.filterwarnings("error", module=r"pytestarch(\.|$)")
+    if profile == "optimized" and __debug__:
+        acc.mark_inconclusive("profile 'optimized' requested but the interpreter runs with assertions enabled")
+
     try:
         _run_shard(pid, spec, acc, mod)
     except ShardAbort as e:
@@ -66,6 +106,9 @@ def run_shard_inprocess(pid: str, spec: dict) -> Acc:
 
         acc.mark_inconclusive(f"shard ({spec.get('kind')}) crashed: {type(e).__name__}: {e} | " + traceback.format_exc()[-600:].replace("\n", " / "))
     acc.flags["contracts_backend"] = getattr(hub, "contracts_backend", "n/a")
+    if profile:
+        acc.counters[f"shards_under_profile:{profile}"] += 1
+        acc.counters[f"evaluations_under_profile:{profile}"] += acc.evaluations
     return acc
 
 
@@ -92,10 +135,15 @@ def _spawn(pid: str, spec: dict, workdir: str, idx: int, timeout: float):
     env["PYTHONPATH"] = VERIF + os.pathsep + env.get("PYTHONPATH", "")
     env["PTA_SCRATCH"] = os.path.join(workdir, f"S{idx}")
     os.makedirs(env["PTA_SCRATCH"], exist_ok=True)
-    cmd = [sys.executable, "-X", "faulthandler", "-m", "pta_verif.runner", "--run-shard", pid, spec_path, out_path]
+    prof = PROFILES.get(spec.get("_profile") or "", {})
+    cmd = [sys.executable, "-X", "faulthandler"] + prof.get("flags", []) + ["-m", "pta_verif.runner", "--run-shard", pid, spec_path, out_path]
+    cwd = VERIF
+    if prof.get("cwd") == "scratch":
+        cwd = os.path.join(workdir, f"CWD{idx}")
+        os.makedirs(cwd, exist_ok=True)
     t0 = time.time()
     try:
-        p = subprocess.run(cmd, env=env, cwd=VERIF, capture_output=True, text=True, timeout=timeout)
+        p = subprocess.run(cmd, env=env, cwd=cwd, capture_output=True, text=True, timeout=timeout)
     except subprocess.TimeoutExpired:
         return idx, None, f"shard {idx} ({spec.get('kind')}) hit the {timeout:.0f}s watchdog", time.time() - t0
     if p.returncode != 0 or not os.path.exists(out_path):
@@ -169,6 +217,7 @@ def main(argv=None) -> int:
 
     if pid in combos.PIDS:
         specs = specs + combos.plan_shards(pid, args.tier)  # scans under composed options
+    specs = specs + profile_variants(specs, args.tier, mod)
     for i, s in enumerate(specs):
         s.setdefault("seed", seed * 1000003 + i)
         s["tier"] = args.tier
@@ -210,6 +259,11 @@ def main(argv=None) -> int:
 
     for why in (mod.floors(acc, args.tier) or []) + (e2e.floor(acc, args.tier) if pid in e2e.WEIGHTS else []) + (combos.floor(pid, acc, args.tier) if pid in combos.PIDS else []):
         acc.mark_inconclusive(why)
+
+    for name in PROFILES:
+        if acc.counters[f"evaluations_under_profile:{name}"] == 0:
+            acc.mark_inconclusive(f"nothing was evaluated under the interpreter profile '{name}'")
+    acc.flags["interpreter_profiles"] = {k: v["what"] for k, v in PROFILES.items()}
 
     known = load_known()
     new, kf = [], []
